@@ -160,7 +160,8 @@ def directed():
 
 def kf1_repro(tr="shm"):
     """KF-C02-1: the client drains every notification byte while the server still owes notifications"""
-    return ["Connect %s 8192" % tr, "Rep 300 SEvent 16", "Rep 278 CEvRecv", "CEvRecv", "SPoll", "Rep 30 CEvRecv"]
+    # (does not depend on how many bytes the socket takes: the client reads until it is told there is nothing)
+    return ["Connect %s 8192" % tr, "Rep 600 SEvent 16", "Until 700 CEvRecv", "CEvRecv", "SPoll", "Until 700 CEvRecv"]
 
 
 def kf2_repro(tr, call):
